@@ -1,10 +1,11 @@
 /-
   Static model, part 3: the construction API (job.py `AbstractJob.__init__/requires/
-  _add_one_requirement`, sequence.py `Sequence.__init__/_flatten/append/requires`,
+  _add_one_requirement`, sequence.py `Sequence.__init__/_flatten/_resolve/append/requires`,
   purescheduler.py `__init__/update/add/remove`).  Core Lean only.
 
   Transcribes the code after the repairs of defects D5 (`append` chains all its arguments)
-  and D6 (`requires(seq, remove=True)` removes).
+  and D6 (`requires(seq, remove=True)` removes), and D15 (a sequence without jobs keeps the
+  requirements it receives, in `_pending`, for the first job that `append` brings).
 -/
 import AJ.Model.Graph
 namespace AJ
@@ -28,9 +29,13 @@ structure Heap where
   seqSched : Nat → Option Nat
   /-- `s.jobs` -/
   mem      : Nat → List Nat
+  /-- `q._pending`: the requirements `q` received while it had no job yet (already resolved to
+      jobs, in the order received); the first job that `append` brings receives them -/
+  seqPending : Nat → List Nat
 
 def Heap.empty : Heap :=
-  { req := fun _ => [], seqJobs := fun _ => [], seqSched := fun _ => none, mem := fun _ => [] }
+  { req := fun _ => [], seqJobs := fun _ => [], seqSched := fun _ => none, mem := fun _ => [],
+    seqPending := fun _ => [] }
 
 def Heap.setReq (h : Heap) (j : Nat) (r : List Nat) : Heap :=
   { h with req := fun k => if k = j then r else h.req k }
@@ -40,6 +45,8 @@ def Heap.setSeqSched (h : Heap) (q : Nat) (s : Option Nat) : Heap :=
   { h with seqSched := fun k => if k = q then s else h.seqSched k }
 def Heap.setMem (h : Heap) (s : Nat) (m : List Nat) : Heap :=
   { h with mem := fun k => if k = s then m else h.mem k }
+def Heap.setSeqPending (h : Heap) (q : Nat) (l : List Nat) : Heap :=
+  { h with seqPending := fun k => if k = q then l else h.seqPending k }
 
 /-- `_add_one_requirement` / `required.remove` for one job `r` -/
 def reqOne (j : Nat) (remove : Bool) (h : Heap) (r : Nat) : Heap × Option Err :=
@@ -76,11 +83,37 @@ def flattenSeq (h : Heap) : List Arg → List Nat
   | .seq q :: as => h.seqJobs q ++ flattenSeq h as
   | _ :: as => flattenSeq h as
 
+mutual
+/-- `Sequence._resolve` for one requirement: the jobs it stands for *now* (`None` ignored, a job
+    for itself, a sequence for its last job if it has one, a collection flattened) -/
+def resolve (h : Heap) : Arg → List Nat
+  | .none => []
+  | .job r => [r]
+  | .seq q =>
+    match (h.seqJobs q).getLast? with
+    | Option.none => []
+    | some r => [r]
+  | .coll xs => resolves h xs
+/-- `Sequence._resolve(requirements)` -/
+def resolves (h : Heap) : List Arg → List Nat
+  | [] => []
+  | a :: as => resolve h a ++ resolves h as
+end
+
 /-- `job2.requires(job1)` along consecutive pairs of `l`, the first one requiring `prev` if any -/
 def chain (h : Heap) : Option Nat → List Nat → Heap
   | _, [] => h
   | Option.none, j :: js => chain h (some j) js
   | some p, j :: js => chain (reqOne j false h p).1 (some j) js
+
+/-- `if self.jobs and self._pending: self.jobs[0].requires(self._pending); self._pending = []`
+    (sequence.py, in `append`): the first job receives what the sequence was given before it had one -/
+def givePending (h : Heap) (q : Nat) : Heap :=
+  match h.seqJobs q with
+  | [] => h
+  | j0 :: _ =>
+    if (h.seqPending q).isEmpty then h
+    else (reqArg j0 false h (.coll ((h.seqPending q).map .job))).1.setSeqPending q []
 
 /-- `scheduler.update(jobs)` for already-flattened jobs -/
 def register (h : Heap) (s : Option Nat) (js : List Nat) : Heap :=
@@ -126,9 +159,13 @@ def interp (h : Heap) : Op → Heap × Option Err
   | .requires j args remove => reqArgs j remove h args
   | .newSeq q items required sched =>
     let js := flattenSeq h items
-    let h1 := chain (h.setSeqJobs q js) Option.none js
+    -- `self.jobs = …; self._pending = []`, then the chain
+    let h1 := chain ((h.setSeqJobs q js).setSeqPending q []) Option.none js
     match js with
-    | [] => (register (h1.setSeqSched q sched) sched js, Option.none)
+    | [] =>
+      -- no job yet: `self._pending += self._resolve([required])`
+      let h2 := h1.setSeqPending q (h1.seqPending q ++ resolves h1 [required])
+      (register (h2.setSeqSched q sched) sched js, Option.none)
     | j0 :: _ =>
       match reqArg j0 false h1 required with
       | (h2, some e) => (h2, some e)
@@ -138,10 +175,12 @@ def interp (h : Heap) : Op → Heap × Option Err
     let new := flattenSeq h items
     let h1 := chain h (h.seqJobs q).getLast? new
     let h2 := h1.setSeqJobs q (h.seqJobs q ++ new)
-    (register h2 (h.seqSched q) new, Option.none)
+    -- after `self.jobs += new_jobs` and before the registration
+    let h3 := givePending h2 q
+    (register h3 (h.seqSched q) new, Option.none)
   | .seqRequires q args =>
     match h.seqJobs q with
-    | [] => (h, Option.none)
+    | [] => (h.setSeqPending q (h.seqPending q ++ resolves h args), Option.none)
     | j0 :: _ => reqArgs j0 false h args
   | .add s x => (register h (some s) (flattenSeq h [x]), Option.none)
   | .update s xs => (register h (some s) (flattenSeq h xs), Option.none)
